@@ -2913,6 +2913,17 @@ impl<'de, 'e> de::Deserializer<'de> for YamlDeserializer<'de, 'e> {
             cfg: Cfg,
         }
 
+        impl<'de> TaggedVA<'de> {
+            /// The recorded payload of a tagged variant must be consumed completely.
+            fn expect_payload_end(&mut self) -> Result<(), Error> {
+                match self.replay.peek()? {
+                    None => Ok(()),
+                    Some(ev) => Err(Error::unexpected("end of the enum variant payload")
+                        .with_location(ev.location())),
+                }
+            }
+        }
+
         impl<'de> de::VariantAccess<'de> for TaggedVA<'de> {
             type Error = Error;
 
@@ -2924,14 +2935,20 @@ impl<'de, 'e> de::Deserializer<'de> for YamlDeserializer<'de, 'e> {
             where
                 T: de::DeserializeSeed<'de>,
             {
-                seed.deserialize(YamlDeserializer::new(&mut *self.replay, self.cfg))
+                let value = seed.deserialize(YamlDeserializer::new(&mut *self.replay, self.cfg))?;
+                self.expect_payload_end()?;
+                Ok(value)
             }
 
             fn tuple_variant<Vv>(mut self, len: usize, visitor: Vv) -> Result<Vv::Value, Error>
             where
                 Vv: Visitor<'de>,
             {
-                YamlDeserializer::new(&mut *self.replay, self.cfg).deserialize_tuple(len, visitor)
+                let value = YamlDeserializer::new(&mut *self.replay, self.cfg)
+                    .deserialize_tuple(len, visitor)?;
+                // Surplus elements of `!Variant [a, b, extra]` must not be dropped silently.
+                self.expect_payload_end()?;
+                Ok(value)
             }
 
             fn struct_variant<Vv>(
